@@ -3,6 +3,8 @@ package props
 import (
 	"testing"
 
+	"pgregory.net/rapid"
+
 	"verif/harness"
 )
 
@@ -190,6 +192,30 @@ func TestC19(t *testing.T) {
 		return p
 	}, nonTriv: func(w *harness.World) bool {
 		return w.Tags["c19-queues-3-candidates-distinct-keys"]+w.Tags["c19-apps-3-candidates-distinct-keys"] > 0 && w.Tags["c19-nodes-3-distinct-scores"] > 0
+	}})
+}
+
+// C16: reloads with mutated configurations while applications run
+func TestC16(t *testing.T) {
+	runWorld(t, worldCheck{prop: "C16", check: "C16/world", profile: func() *harness.Profile {
+		p := mixedProfile()
+		p.Name = "reload"
+		p.Conf = harness.ConfOpts{MaxDepth: 3, Limits: true, MaxApps: true, Quotas: true, Templates: true, Preemption: true}
+		p.Reloads = true
+		p.Weights = harness.With(harness.BaseWeights(), map[string]int{harness.OpReload: 14, harness.OpCleanQueues: 5, harness.OpAddApp: 9, harness.OpAddAsk: 16, harness.OpRemoveApp: 3, harness.OpRelease: 6,
+			harness.OpSchedule: 22, harness.OpFireState: 2})
+		p.NodeLo, p.NodeHi, p.AskLo, p.AskHi = 10, 30, 1, 5
+		p.GangProb, p.ReqNodeProb, p.BadQueueProb = 10, 5, 10
+		p.Epilogue = false
+		p.MinSteps, p.MaxSteps = 15, 70
+		return p
+	}, prologue: func(t *rapid.T, w *harness.World, p *harness.Profile) {
+		initial := w.Conf
+		w.ReloadGen = func(t *rapid.T, w *harness.World) string {
+			return harness.MarshalConf(harness.MutateConf(t, w.Conf, initial))
+		}
+	}, nonTriv: func(w *harness.World) bool {
+		return w.Tags["c16-reload-with-2-busy-queues"] > 0 && (w.Tags["c16-property-changed"]+w.Tags["c16-non-empty-queue-removed-from-config"] > 0)
 	}})
 }
 
